@@ -268,9 +268,9 @@ RECURSIVE ModTree(_)      \* :20 moduleSummary ; the roots themselves are NOT fi
 ModTree(m) == {m} \cup (IF Objs[m].cls = "Package" THEN UNION {ModTree(s) : s \in {c \in VisContents(m) : IsMod(c)}} ELSE {})
 ListedRoots == IF Fx("hidden-root-listed") THEN {r \in Range(Roots) : Vis(r)} ELSE Range(Roots)
 ModListed == UNION {ModTree(r) : r \in ListedRoots}
-\* (an item whose link taglink() refused is still written, but carries nothing the crawl recognises as an entry)
+\* (an item whose link taglink() refused is still written: an entry, identified by the name it displays)
 ModuleIndexLinks == {L("moduleIndex", Url(m), "moduleIndex") : m \in Linkable(ModListed)} \cup SummaryRefs("moduleIndex", ModListed)
-ModuleIndexEntries == {E("moduleIndex", "moduleIndex", Url(m), IsPrivate(m)) : m \in Linkable(ModListed)}
+ModuleIndexEntries == {E("moduleIndex", "moduleIndex", Url(m), IsPrivate(m)) : m \in ModListed}
 
 \* :84 findRootClasses / :130 subclassesFrom
 Documented(i) == Vis(i) /\ InTree(i)     \* util.is_documented() of the fix of superseded-duplicate-listed
@@ -301,7 +301,7 @@ UndoccedEntries == {E("undoccedSummary", "undocced", Url(i), FALSE) : i \in Undo
 IndexLinks == IF Multi THEN {L("index", Url(r), "indexRoots") : r \in Linkable(ListedRoots)}
                             \cup {L("index", [file |-> t, frag |-> ""], "indexStatic") : t \in {"moduleIndex", "classIndex", "nameIndex"}}
                        ELSE {}
-IndexEntries == IF Multi THEN {E("index", "indexRoots", Url(r), FALSE) : r \in Linkable(ListedRoots)} ELSE {}
+IndexEntries == IF Multi THEN {E("index", "indexRoots", Url(r), FALSE) : r \in ListedRoots} ELSE {}
 AllDocsLinks == SummaryRefs("all-documents", AllVisible)
 Docs == {[id |-> i, file |-> FileOf(i), frag |-> FragOf(i), privacy |-> Objs[i].priv] : i \in AllVisible}
 Search == AllVisible
